@@ -209,9 +209,12 @@ func c01Property(t *rapid.T) {
 				b = g.genBlock(8)
 			}
 		} else {
-			switch rapid.IntRange(0, 4).Draw(t, "episode") {
+			switch rapid.IntRange(0, 5).Draw(t, "episode") {
 			case 0:
 				ep := g.genGroupEpisode()
+				b, queue = ep[0], ep[1:]
+			case 5:
+				ep := g.genXVMEpisode()
 				b, queue = ep[0], ep[1:]
 			case 1:
 				stepEp = g.lifecycleEpisode(&lifeEpisodes)
@@ -393,6 +396,9 @@ func c01Property(t *rapid.T) {
 	}
 	if pipelinedBursts > 0 {
 		classes = append(classes, "replica-pipelined-bursts")
+	}
+	if g.kinds["xvm-episode"] > 0 {
+		classes = append(classes, "xvm-invocations-across-restarts")
 	}
 	if g.kinds["signature-storm"] > 0 {
 		classes = append(classes, "signature-storm-block")
